@@ -815,6 +815,12 @@ class AbstractExcelInPython(ABC):
 
         return value[0] if len(value) == 1 else value
 
+    def _rows_below(self, title: int, first_column: int, last_column: int, first_row: int) -> List[List]:
+        # the rows of a whole-column area below the rows the workbook had when it was translated:
+        # values set by hand may have extended the sheet
+        return [[self._cell_preprocessor('_%s_%s_%s' % (title, column, row)) for column in range(first_column, last_column + 1)]
+                for row in range(first_row, self._sheets_size[title]['last_row'])]
+
     def _cell_preprocessor(self, cell_uid: str):
         # Ищем метод расчета значения ячейки среди методов и аттрибутов экземпляра и класса
         method = self.__dict__.get(cell_uid, self.__class__.__dict__.get(cell_uid))
